@@ -113,8 +113,10 @@ theorem leaf_congr (p : P) (hl : isLeaf p = true) (args : List Bytes) (e e' : En
     | cons a r =>
       simp only [runP]
       split
-      · exact stepEq_ret (h.setSlot _ _)
       · simp [StepEq]
+      · split
+        · exact stepEq_ret (h.setSlot _ _)
+        · simp [StepEq]
   | strings s => cases args <;> simp only [runP] <;> exact stepEq_ret (by first | exact h | exact h.setSlot _ _)
   | anys s => cases args <;> simp only [runP] <;> exact stepEq_ret (by first | exact h | exact h.setSlot _ _)
   | stringsN s ns =>
@@ -553,15 +555,17 @@ theorem consumes_named (name : String) (body : List P) (hpos : ∀ q ∈ body, i
   have := runNamed_positional body hpos vals hlen t env (U env) (hb env) 0
   simpa using this
 
-/-- `Named` with an `Enum` body consumes its keyword and one of the allowed values (exact case, D13) -/
-theorem consumes_named_enum (name slot : String) (allowed : List String) (kw v : Bytes)
+/-- `Named` with an `Enum` body consumes its keyword and one of the allowed values in any letter case; the
+LOWERED value is what the slot receives -/
+theorem consumes_named_enum (name slot : String) (allowed : List String) (kw v l : Bytes)
     (hkw : equalFold kw (asciiBytes name) = true)
-    (hv : allowed.any (fun s => asciiBytes s == v) = true) :
-    Consumes (.named name [.enum slot allowed]) [kw, v] (fun e => setSlot e slot (.bytes v)) := by
+    (hl : enumLower allowed v = some l)
+    (hv : allowed.any (fun s => asciiBytes s == l) = true) :
+    Consumes (.named name [.enum slot allowed]) [kw, v] (fun e => setSlot e slot (.bytes l)) := by
   intro t env _
   show runP _ (kw :: v :: t) env = _
   rw [named_step, if_pos hkw, runNamed_cons]
-  simp only [runP, hv, if_true]
+  simp only [runP, hl, hv, if_true]
   cases t with
   | nil => simp
   | cons x xs => simp [runNamed_nil]
